@@ -758,6 +758,89 @@ fn run_pairs(ctx: &mut Ctx, rep: &mut Report, ck: &mut Checker, base: &mut u64, 
     }
 }
 
+// ---------------------------------------------------------------------------
+// long runs of one filler line (stack depth / per-line state over thousands of lines)
+// ---------------------------------------------------------------------------
+
+const FILLERS: [&str; 5] = ["\n", " \n", "\t\n", "\r\n", "XX\n"];
+
+/// The input of one long-run case: `n` copies of `filler` inserted before line `at` of the base file
+/// (`at` = number of lines: appended after the last line).
+fn long_run_bytes(base: &[u8], filler: &str, n: usize, at: usize) -> Vec<u8> {
+    let lines: Vec<&[u8]> = base.split_inclusive(|&b| b == b'\n').collect();
+    let mut out = Vec::with_capacity(base.len() + n * filler.len());
+    for (i, l) in lines.iter().enumerate() {
+        if i == at {
+            for _ in 0..n {
+                out.extend_from_slice(filler.as_bytes());
+            }
+        }
+        out.extend_from_slice(l);
+    }
+    if at >= lines.len() {
+        for _ in 0..n {
+            out.extend_from_slice(filler.as_bytes());
+        }
+    }
+    out
+}
+
+fn long_run_case(b: &Base, fi: usize, n: usize, at: usize) -> Value {
+    json!({"kind": "long_run", "format": b.fmt.name(), "alphabet": b.alpha.name(), "base": b.name, "base_text": lossy(&b.bytes),
+           "filler": FILLERS[fi], "filler_index": fi, "repeat": n, "before_line": at})
+}
+
+fn check_long_run(rep: &mut Report, b: &Base, fi: usize, n: usize, at: usize) {
+    let data = long_run_bytes(&b.bytes, FILLERS[fi], n, at);
+    for policy in [crate::chunked::Policy::Whole, crate::chunked::Policy::Uniform(4096)] {
+        watch::tick();
+        let run = run_reader(b.fmt, b.alpha, &data, policy, &plan_for(data.len()));
+        rep.eval_distinct(true);
+        if let Some((class, msg)) = verdict(&run, data.len()) {
+            rep.violation(
+                format!("C15 {} long-run {}", b.fmt.name(), class),
+                format!("{} [{} x {:?} before line {} of {}]", msg, n, FILLERS[fi], at, b.name),
+                || long_run_case(b, fi, n, at),
+            );
+            break;
+        }
+    }
+}
+
+fn run_long_runs(ctx: &mut Ctx, rep: &mut Report, base: &mut u64, bases: &[(usize, Base)]) {
+    rep.space(
+        "long_runs",
+        "base files (first one per reader) x a run of N in {3000, 50000, 400000} copies of one filler line {LF, space LF, tab LF, CR LF, 'XX' LF} inserted before EVERY line and after the last one \
+         x chunkings {whole, 4096-byte chunks}; same oracle as short_strings (no panic, no hang, and no stack exhaustion: a crash of the process is attributed to the case through its breadcrumb)",
+    );
+    let mut seen = std::collections::BTreeSet::new();
+    for (_, b) in bases {
+        if !seen.insert((b.fmt.name(), b.alpha.name())) {
+            continue;
+        }
+        let nlines = b.bytes.split_inclusive(|&x| x == b'\n').count();
+        for fi in 0..FILLERS.len() {
+            for &n in &[3000usize, 50_000, 400_000] {
+                for at in 0..=nlines {
+                    let idx = *base;
+                    *base += 1;
+                    if !ctx.mine(idx) {
+                        continue;
+                    }
+                    if !vx_core::util::crumb(|| json!({"module": "C15", "case": long_run_case(b, fi, n, at)}).to_string()) {
+                        continue;
+                    }
+                    check_long_run(rep, b, fi, n, at);
+                }
+            }
+        }
+        if ctx.out_of_time() {
+            rep.cap(format!("long_runs: wall-clock cap at {}", b.name));
+            return;
+        }
+    }
+}
+
 pub fn run(ctx: &mut Ctx, rep: &mut Report) {
     watch::start();
     let quick = ctx.quick();
@@ -810,6 +893,9 @@ pub fn run(ctx: &mut Ctx, rep: &mut Report) {
     if !ctx.capped && ctx.wants("utf8_runs") {
         run_utf8_runs(ctx, rep, &mut ck, &mut base, &bases);
     }
+    if !ctx.capped && ctx.wants("long_runs") {
+        run_long_runs(ctx, rep, &mut base, &bases);
+    }
     if !quick && !ctx.capped && ctx.wants("two_faults") {
         run_pairs(ctx, rep, &mut ck, &mut base, &bases);
     }
@@ -839,6 +925,19 @@ pub fn run(ctx: &mut Ctx, rep: &mut Report) {
 pub fn replay(_ctx: &mut Ctx, rep: &mut Report, case: &Value) {
     watch::start();
     rep.space("replay", "replay of one recorded (input bytes, chunking) case");
+    // monitored runs hand over {"module": .., "case": ..}
+    let case = if case.get("case").is_some() && case.get("format").is_none() { &case["case"] } else { case };
+    if case["kind"].as_str() == Some("long_run") {
+        let fmt = case["format"].as_str().and_then(Fmt::from_name).expect("format");
+        let alpha = case["alphabet"].as_str().and_then(Alpha::from_name).expect("alphabet");
+        let name = case["base"].as_str().unwrap_or("");
+        match base_files(fmt, alpha).into_iter().find(|b| b.name == name) {
+            Some(b) => check_long_run(rep, &b, case["filler_index"].as_u64().unwrap() as usize, case["repeat"].as_u64().unwrap() as usize, case["before_line"].as_u64().unwrap() as usize),
+            None => rep.machinery(format!("C15 replay: unknown base file {}", name)),
+        }
+        watch::stop();
+        return;
+    }
     let fmt = case["format"].as_str().and_then(Fmt::from_name).expect("format");
     let alpha = case["alphabet"].as_str().and_then(Alpha::from_name).expect("alphabet");
     let data = bytes_from_json(&case["bytes"]).expect("bytes");
